@@ -1,6 +1,10 @@
 import JSight.ProtocolProofs
 import JSight.ValidateNProofs
 import JSight.ValidateTProofs
+import JSight.DocCursorThm
+import JSight.DocCursorFuel
+import JSight.DocCursorLink
+import JSight.DocCursorSafe
 /-!
 # C11 — Results are deterministic, history-independent and stable: what a theorem can carry
 
@@ -14,6 +18,10 @@ import JSight.ValidateTProofs
   union semantics, which is invariant under permutation of the alternatives.
 Go's runtime map order, GC and the real API histories are exercised by the harness (`c11-history`), not
 modelled.
+* `C11_doc_*` (end of the file): the json `Document` object as a state machine (`JSight/DocCursor.lean`: text, option
+  bit, incremental scanner, `checkOnce` / `lenOnce` cells; `NextLexeme` / `Check` / `Len` with the rewinds of
+  json.go:64-113,142-145): after EVERY history `Check` and `Len` answer what they answer on a fresh document, the cursor
+  is a closed form of the history, the option bit survives.  Tie: driver `doccur` / harness `c11-doc`.
 -/
 namespace Props.C11
 open Protocol
@@ -51,4 +59,167 @@ example : (Heap.init.example [7]).1.Inv ∧ (Heap.init.example [7]).2 ∈ (Heap.
   refine ⟨(example_spec Heap.init inv_init [7]).1, ?_⟩
   decide
 
+/-! ## The json `Document`: rewinds around `Check` / `Len` (formats/json/json.go:64-113,142-145)
+
+`DocCursor.Doc` is the object (text, option bit, scanner between two `Next` calls, the two once cells), `Doc.run` applies
+a history of `NextLexeme` / `Check` / `Len` calls to it and collects what each call hands to the caller.
+`checkText t o` / `lenText t o` / `lexAt t o k` are functions of text and option alone: `Check` and `Len` of a document
+to which nothing was done, and the delivery of the `k`-th `NextLexeme` of a document on which only `NextLexeme` was
+called.  `CheckRes.cached` is what the once cell keeps: the answer itself, except that a non-error panic inside the first
+call (passed on to the caller) leaves the cell done with `nil`. -/
+section doc
+open DocCursor
+
+/-- `Check` after ANY history, exactly: the answer of a fresh document; if the history already contains a `Check`, what the
+once cell kept of it. -/
+theorem C11_doc_check_history_exact (t : List UInt8) (o : Bool) (ops : List Op) :
+    (((Doc.new t o).run ops).2.step .check).1 =
+      .check (if hasCheck ops then (checkText t o).cached else checkText t o) := check_after t o ops
+
+/-- `Check` is history-free: whatever was done to the document before, `Check` answers what it answers on a fresh
+document (`checkText_no_crash`: that answer is never a panic, so the once cell keeps it as it is). -/
+theorem C11_doc_check_history_free (t : List UInt8) (o : Bool) (ops : List Op) :
+    (((Doc.new t o).run ops).2.step .check).1 = .check (checkText t o) := by
+  rw [check_after, cached_of_not_crash (fun w => checkText_no_crash t o w)]; simp
+
+theorem C11_doc_len_history_exact (t : List UInt8) (o : Bool) (ops : List Op) :
+    (((Doc.new t o).run ops).2.step .len).1 =
+      .len (if hasLen ops then (lenText t o).cached else lenText t o) := len_after t o ops
+
+theorem C11_doc_len_history_free (t : List UInt8) (o : Bool) (ops : List Op) :
+    (((Doc.new t o).run ops).2.step .len).1 = .len (lenText t o) := by
+  rw [len_after, lcached_of_not_crash (fun w => lenText_no_crash t o w)]; simp
+
+/-- `Check` / `Len` of a fresh document never end in a non-error panic -/
+theorem C11_doc_check_len_never_panic (t : List UInt8) (o : Bool) (w : String) :
+    checkText t o ≠ .crash w ∧ lenText t o ≠ .crash w := ⟨checkText_no_crash t o w, lenText_no_crash t o w⟩
+
+/-- the loops of `check` / `Length()` end by themselves: the fuel of the model is never used up -/
+theorem C11_doc_fuel_suffices (t : List UInt8) (o : Bool) :
+    checkText t o ≠ .crash "fuel" ∧ lenText t o ≠ .crash "fuel" := ⟨checkText_fuel t o, lenText_fuel t o⟩
+
+/-- the whole document after a history in closed form: scanner and `lexErr` are the ones of a fresh document after
+`cursorOf ops` `NextLexeme` calls, and `cursorOf` is: 0 at the start, +1 by `NextLexeme`, back to 0 by the FIRST `Check` and by the FIRST
+`Len`, untouched by later ones. -/
+theorem C11_doc_cursor_after (t : List UInt8) (o : Bool) (ops : List Op) :
+    ((Doc.new t o).run ops).2 = stateOf t o (hasCheck ops) (hasLen ops) (cursorOf ops) ∧
+    (((Doc.new t o).run ops).2.sc, ((Doc.new t o).run ops).2.lexErr) = scanAt t o (cursorOf ops) ∧
+    cursorOf [] = 0 ∧
+    cursorOf (ops ++ [.next]) = cursorOf ops + 1 ∧
+    cursorOf (ops ++ [.check]) = (if hasCheck ops then cursorOf ops else 0) ∧
+    cursorOf (ops ++ [.len]) = (if hasLen ops then cursorOf ops else 0) := by
+  refine ⟨by rw [run_new], by rw [run_new]; rfl, rfl, ?_, ?_, ?_⟩ <;> rw [cursorOf_snoc] <;> rfl
+
+/-- what the calls of a history hand out, in closed form (`outsFrom`); in particular a `NextLexeme` issued after the
+history `ops` delivers lexeme number `cursorOf ops` of the text: consecutive lexemes, starting again from 0 after each
+first `Check` / first `Len`; and the lexeme sequence of a text ENDS with its first error: `lexAt` after an error is that
+error forever (fix 8464556, `lexErr`). -/
+theorem C11_doc_next_spec (t : List UInt8) (o : Bool) (ops : List Op) :
+    ((Doc.new t o).run ops).1 = outsFrom t o false false 0 ops ∧
+    (((Doc.new t o).run ops).2.step .next).1 = .next (lexAt t o (cursorOf ops)) ∧
+    (∀ k c q, lexAt t o k = .err c q → ∀ j, lexAt t o (k + j) = .err c q) := by
+  rw [run_new]; exact ⟨rfl, rfl, fun k c q h j => (lexAt_sticky t o k c q h j).1⟩
+
+/-- once a `NextLexeme` answered the error `c` at `q`, every later `NextLexeme` answers the same error, whatever is called
+in between, as long as that is not the first `Check` or the first `Len` of the document (the two calls that rewind) -/
+theorem C11_doc_error_sticky (t : List UInt8) (o : Bool) (pre mid : List Op) (c q : Nat)
+    (h : (((Doc.new t o).run pre).2.step .next).1 = .next (.err c q))
+    (hm : noRewind (hasCheck pre) (hasLen pre) mid = true) :
+    (((Doc.new t o).run (pre ++ .next :: mid)).2.step .next).1 = .next (.err c q) :=
+  error_sticky t o pre mid c q h hm
+
+/-- no `NextLexeme` of any history on any text ends in a non-error panic (C07 for the document cursor): the scanner
+follows the whole-text model (`JsonScan.events`, which never crashes: `Sim.C07_json_no_crash`) until its first error, and
+after an error it is not stepped again before a rewind. -/
+theorem C11_doc_next_never_panics (t : List UInt8) (o : Bool) (ops : List Op) (w : String) :
+    (((Doc.new t o).run ops).2.step .next).1 ≠ .next (.crash w) := by
+  rw [next_after]
+  intro e
+  injection e with e
+  exact lexAt_never_crash t o _ w e
+
+/-- equal text, equal option, equal history: equal outputs -/
+theorem C11_doc_equal_inputs (t : List UInt8) (o : Bool) (d₁ d₂ : Doc) (h₁ : d₁ = Doc.new t o) (h₂ : d₂ = Doc.new t o)
+    (ops : List Op) : (d₁.run ops).1 = (d₂.run ops).1 := by rw [h₁, h₂]
+
+/-- the option bit survives every operation: in the document and in the scanner it currently works with -/
+theorem C11_doc_rewind_keeps_option (t : List UInt8) (o : Bool) (ops : List Op) :
+    ((Doc.new t o).run ops).2.opt = o ∧ ((Doc.new t o).run ops).2.sc.allow = o := option_after t o ops
+
+/-! Non-vacuity and witnesses.  `1 x` = `[49, 32, 120]`. -/
+
+/-- trailing non-space bytes, option given: three deliveries, `Check`, the cursor is back at 0, `Len`, cached `Check` -/
+example : ((Doc.new [49, 32, 120] true).run [.next, .next, .next, .check, .next, .len, .check]).1 =
+    [.next (.lex ⟨.litB, 0, 0⟩), .next (.lex ⟨.litE, 0, 0⟩), .next (.eofLex ⟨.endTop, 2, 2⟩), .check .ok,
+     .next (.lex ⟨.litB, 0, 0⟩), .len (.ok 1), .check .ok] := by decide
+/-- the same text without the option: the error appears at the THIRD lexeme; `Check` and `Len` report it from any cursor -/
+example : ((Doc.new [49, 32, 120] false).run [.next, .next, .next, .check, .next, .len]).1 =
+    [.next (.lex ⟨.litB, 0, 0⟩), .next (.lex ⟨.litE, 0, 0⟩), .next (.err 301 2), .check (.err 301 2),
+     .next (.lex ⟨.litB, 0, 0⟩), .len (.err 301 2)] := by decide
+/-- the empty text -/
+example : ((Doc.new [] false).run [.next, .check, .len, .next]).1 =
+    [.next .eof, .check (.err 203 0), .len (.ok 0), .next .eof] := by decide
+/-- cursor values: the first history ends with the cursor at 0 (first `Len`); later `Check` / `Len` calls leave the cursor
+where the `NextLexeme` calls put it -/
+example : cursorOf [.next, .next, .next, .check, .next, .len, .check] = 0 ∧
+    cursorOf [.next, .check, .next, .len, .next, .next, .check, .len] = 2 := by decide
+/-- `{x}` = `[123, 120, 125]`: the error of the second call is kept until the rewind of the first `Check`; after it the
+cursor is at 0 and the error is gone -/
+example : ((Doc.new [123, 120, 125] false).run [.next, .next, .next, .len, .next, .check, .next]).1 =
+    [.next (.lex ⟨.objB, 0, 0⟩), .next (.err 301 1), .next (.err 301 1), .len (.err 301 1), .next (.lex ⟨.objB, 0, 0⟩),
+     .check (.err 301 1), .next (.lex ⟨.objB, 0, 0⟩)] := by decide
+/-- hypotheses of `C11_doc_error_sticky` on that text: `Len` then `Check` in between, both cells done before -/
+example : (((Doc.new [123, 120, 125] false).run [.check, .len, .next]).2.step .next).1 = .next (.err 301 1) ∧
+    noRewind (hasCheck [.check, .len, .next]) (hasLen [.check, .len, .next]) [.len, .check, .next] = true := by decide
+/-- regression witness for `{x}`: a `nextLexeme` that does not keep the error (`nextNotSticky`, the code before the fix)
+goes on from what the panic left behind - `found(ObjectKeyBegin)` was already called - and its fourth call ends in the
+string panic; the sticky one answers the error again -/
+example :
+    let cls := clsOf [123, 120, 125]
+    let r1 := nextNotSticky cls ({}, none)
+    let r2 := nextNotSticky cls r1.2
+    let r3 := nextNotSticky cls r2.2
+    let r4 := nextNotSticky cls r3.2
+    [r1.1, r2.1, r3.1, r4.1] =
+      [.lex ⟨.objB, 0, 0⟩, .err 301 1, .lex ⟨.keyB, 1, 1⟩, .crash "Incorrect ending of the lexical event"] ∧
+    (List.range 4).map (lexAt [123, 120, 125] false) =
+      [.lex ⟨.objB, 0, 0⟩, .err 301 1, .err 301 1, .err 301 1] := by decide
+/-- regression witness: with a `rewind` that forgets the option (`Doc.checkDropping`), `Check` after one `NextLexeme`
+answers "invalid character at 2" where `Check` of a fresh document answers OK -/
+example : (((Doc.new [49, 32, 120] true).step .next).2.checkDropping).1 = .err 301 2 ∧
+    checkText [49, 32, 120] true = .ok ∧
+    (((Doc.new [49, 32, 120] true).step .next).2.step .check).1 = .check .ok := by decide
+
+/-- On every text the whole-text JSON scanner model (`JsonScan.events`, the model of the C05 / C06 / C07 / C14 / C17
+theorems) ACCEPTS, the `Document` machine is that model: `Check` of a fresh document is `OK` / `Empty JSON` as `checkS`
+says, `Len` is `lengthS`, and the `NextLexeme` deliveries are exactly its events (the `EndTop` one together with EOF,
+plain EOF behind the last one otherwise). -/
+theorem C11_doc_accepted_is_whole_text_model (t : List UInt8) (o : Bool) (evs : List JsonScan.Ev)
+    (h : JsonScan.events o t = .ok evs) :
+    checkText t o = (if (JsonScan.nonTop evs).isEmpty then .err 203 0 else .ok) ∧
+    (∀ n, JsonScan.lengthS o t = .ok n → lenText t o = .ok n) ∧
+    scanAll t o (conv evs).length = conv evs :=
+  ⟨checkText_of_events t o evs h, fun n hn => lenText_of_lengthS t o n hn, scanAll_of_events t o evs h⟩
+
+/-- non-vacuity: `1 x` with the option is accepted with three events, the last one `EndTop` -/
+example : JsonScan.events true [49, 32, 120] = .ok [⟨.litB, 0, 0⟩, ⟨.litE, 0, 0⟩, ⟨.endTop, 2, 2⟩] ∧
+    conv [⟨.litB, 0, 0⟩, ⟨.litE, 0, 0⟩, ⟨.endTop, 2, 2⟩] =
+      [.lex ⟨.litB, 0, 0⟩, .lex ⟨.litE, 0, 0⟩, .eofLex ⟨.endTop, 2, 2⟩] := ⟨by rfl, by decide⟩
+
+end doc
+
 end Props.C11
+
+#print axioms Props.C11.C11_doc_check_history_exact
+#print axioms Props.C11.C11_doc_check_history_free
+#print axioms Props.C11.C11_doc_len_history_exact
+#print axioms Props.C11.C11_doc_len_history_free
+#print axioms Props.C11.C11_doc_fuel_suffices
+#print axioms Props.C11.C11_doc_cursor_after
+#print axioms Props.C11.C11_doc_next_spec
+#print axioms Props.C11.C11_doc_error_sticky
+#print axioms Props.C11.C11_doc_next_never_panics
+#print axioms Props.C11.C11_doc_check_len_never_panic
+#print axioms Props.C11.C11_doc_equal_inputs
+#print axioms Props.C11.C11_doc_rewind_keeps_option
+#print axioms Props.C11.C11_doc_accepted_is_whole_text_model
